@@ -1,329 +1,291 @@
-"""C01 extractor: facts of Pyro5/serializers.py (current source) -> lean/PyroModel/Gen/C01.lean."""
+"""C01 extractor: facts about Pyro5/serializers.py (current source) -> lean/PyroModel/Gen/C01.lean.
+
+Every fact is obtained by PROBING the imported module (calling the real functions on small tables of inputs,
+instrumenting a subclass), not by reading the shape of the source: renamed locals, extracted / inlined helpers,
+hoisted constants, loops vs comprehensions, docstrings etc. leave the facts unchanged; a fact changes exactly when
+the behaviour it describes changes.  The only use of the source text is to harvest candidate string literals for the
+reserved class key (the key itself is then established by behaviour).
+"""
+import array
 import ast
+import datetime
+import decimal
 import json
 import os
+import uuid
 
 import common
 
 
 class Shape(Exception):
-    """the source no longer has the shape the extractor understands"""
+    """the module no longer behaves in a way the model can be instantiated for"""
 
 
-def _src(node):
-    return ast.unparse(node)
-
-
-def _cls(tree, name):
-    for n in tree.body:
-        if isinstance(n, ast.ClassDef) and n.name == name:
-            return n
-    raise Shape("class %s not found" % name)
-
-
-def _meth(cls, name):
-    for n in cls.body:
-        if isinstance(n, ast.FunctionDef) and n.name == name:
-            return n
-    raise Shape("method %s.%s not found" % (cls.name, name))
-
-
-def _calls(fn, dotted):
-    out = []
-    for node in ast.walk(fn):
-        if isinstance(node, ast.Call) and _src(node.func) == dotted:
-            out.append(node)
-    return out
-
-
-def _unpack_hooks(fn):
-    """keywords of the single msgpack.unpackb(...) call of a method -> {name: source of value}"""
-    calls = _calls(fn, "msgpack.unpackb")
-    if len(calls) != 1:
-        raise Shape("%s: expected exactly one msgpack.unpackb call" % fn.name)
-    return {k.arg: _src(k.value) for k in calls[0].keywords}
-
-
-def _isinstance_chain(fn):
-    """the top-level `if isinstance(obj, T): ...` statements of a default() hook, in order -> [T source]"""
-    out = []
-    for st in fn.body:
-        if isinstance(st, ast.If) and isinstance(st.test, ast.Call) and _src(st.test.func) == "isinstance":
-            out.append(_src(st.test.args[1]))
-    return out
-
-
-def _ext_codes_default(fn):
-    """[(isinstance type, ext code, struct format or '')] of the ExtType returns of MsgpackSerializer.default"""
-    out = []
-    for st in fn.body:
-        if isinstance(st, ast.If) and isinstance(st.test, ast.Call) and _src(st.test.func) == "isinstance":
-            for node in ast.walk(st):
-                if isinstance(node, ast.Call) and _src(node.func) == "msgpack.ExtType":
-                    code = node.args[0]
-                    if not isinstance(code, ast.Constant):
-                        raise Shape("ExtType code is not a literal")
-                    fmt = ""
-                    for sub in ast.walk(node.args[1]):
-                        if isinstance(sub, ast.Call) and _src(sub.func) == "struct.pack" and isinstance(sub.args[0], ast.Constant):
-                            fmt = sub.args[0].value
-                    out.append((_src(st.test.args[1]), code.value, fmt))
-    return out
-
-
-def _ext_codes_hook(fn):
-    """[(code, struct format or '')] of the `if code == K:` statements of ext_hook, in order"""
-    out = []
-    for st in fn.body:
-        if isinstance(st, ast.If) and isinstance(st.test, ast.Compare) and _src(st.test.left) == "code" \
-                and isinstance(st.test.ops[0], ast.Eq) and isinstance(st.test.comparators[0], ast.Constant):
-            fmt = ""
-            for sub in ast.walk(st):
-                if isinstance(sub, ast.Call) and _src(sub.func) == "struct.unpack" and isinstance(sub.args[0], ast.Constant):
-                    fmt = sub.args[0].value
-            out.append((st.test.comparators[0].value, fmt))
-    return out
-
-
-def _marshal_kwargs_none_safe(fn):
-    """does MarshalSerializer.dumpsCall tolerate kwargs=None?  Recognised shapes only."""
-    items = [n for n in ast.walk(fn) if isinstance(n, ast.Call) and isinstance(n.func, ast.Attribute) and n.func.attr == "items"]
-    if len(items) != 1:
-        raise Shape("MarshalSerializer.dumpsCall: expected exactly one .items() call")
-    recv = items[0].func.value
-    guarded_before = False
-    for st in fn.body:
-        s = _src(st)
-        if s in ("kwargs = kwargs or {}", "kwargs = {} if kwargs is None else kwargs", "kwargs = kwargs if kwargs else {}",
-                 "kwargs = kwargs if kwargs is not None else {}"):
-            guarded_before = True
-        if isinstance(st, ast.If) and _src(st.test) in ("kwargs is None", "not kwargs") and len(st.body) == 1 \
-                and _src(st.body[0]) in ("kwargs = {}", "kwargs = dict()"):
-            guarded_before = True
-        if any(n is items[0] for n in ast.walk(st)):
-            break
-    r = _src(recv)
-    if r == "kwargs":
-        return guarded_before
-    if r in ("(kwargs or {})", "kwargs or {}", "(kwargs or dict())", "kwargs or dict()"):
-        return True
-    raise Shape("MarshalSerializer.dumpsCall: unrecognised receiver of .items(): %s" % r)
-
-
-
-def _marshal_list_items(mars):
-    """(dumps converts the items of a top-level list, dumpsCall converts the items of list arguments).
-    A *list-item converter* is a method of MarshalSerializer with a statement
-        if type(X) is list:  X = [self.convert_obj_into_marshallable(v) for v in X]
-    `dumps` converts list items if it is such a method or passes its data to one; `dumpsCall` does if
-    both of its comprehensions (vargs, kwargs values) call such a helper instead of
-    convert_obj_into_marshallable directly."""
-    def is_converter(fn):
-        for st in ast.walk(fn):
-            if isinstance(st, ast.If) and isinstance(st.test, ast.Compare) and isinstance(st.test.ops[0], ast.Is) \
-                    and _src(st.test.comparators[0]) == "list" and _src(st.test.left).startswith("type("):
-                for sub in ast.walk(st):
-                    if isinstance(sub, ast.ListComp) and "self.convert_obj_into_marshallable(" in _src(sub.elt):
-                        return True
-        return False
-    converters = {n.name for n in mars.body if isinstance(n, ast.FunctionDef) and is_converter(n)}
-    dumps = _meth(mars, "dumps")
-    dumps_calls = {c.func.attr for c in ast.walk(dumps) if isinstance(c, ast.Call) and isinstance(c.func, ast.Attribute)
-                   and _src(c.func.value) == "self"}
-    res = "dumps" in converters or bool(dumps_calls & converters)
-    if not res and not ("convert_obj_into_marshallable" in dumps_calls):
-        raise Shape("MarshalSerializer.dumps: no conversion call recognised")
-    dc = _meth(mars, "dumpsCall")
-    comps = [n for n in ast.walk(dc) if isinstance(n, (ast.ListComp, ast.DictComp))]
-    if len(comps) != 2:
-        raise Shape("MarshalSerializer.dumpsCall: expected two comprehensions (vargs, kwargs)")
-    kinds = []
-    for comp in comps:
-        elt = comp.elt if isinstance(comp, ast.ListComp) else comp.value
-        if not (isinstance(elt, ast.Call) and isinstance(elt.func, ast.Attribute) and _src(elt.func.value) == "self"):
-            raise Shape("MarshalSerializer.dumpsCall: unrecognised element conversion " + _src(elt))
-        name = elt.func.attr
-        if name == "convert_obj_into_marshallable":
-            kinds.append(False)
-        elif name in converters:
-            kinds.append(True)
-        else:
-            raise Shape("MarshalSerializer.dumpsCall: unknown conversion helper " + name)
-    if kinds[0] != kinds[1]:
-        raise Shape("MarshalSerializer.dumpsCall converts vargs and kwargs differently")
-    return res, kinds[0]
-
-
-def _tuple_names(node):
-    if not isinstance(node, ast.Tuple):
-        raise Shape("expected a tuple literal, got %s" % _src(node))
-    return [_src(e) for e in node.elts]
+def _kind(fn):
+    """('ok', value) | ('err', exception class name)"""
+    try:
+        return "ok", fn()
+    except Exception as x:     # noqa: BLE001 - the class name is the fact
+        return "err", type(x).__name__
 
 
 def _lean_str_list(xs):
     return "[" + ", ".join(json.dumps(x) for x in xs) + "]"
 
 
+def _lean_pairs(xs):
+    return "[" + ", ".join("(%s, %s)" % (json.dumps(a), json.dumps(b)) for a, b in xs) + "]"
+
+
 def _cps(s):
     return "[" + ", ".join(str(ord(c)) for c in s) + "]"
 
 
+def _b(x):
+    return "true" if x else "false"
+
+
+class _Obj(object):
+    """a plain user object (vars() only)"""
+
+    def __init__(self):
+        self.x = 1
+
+
+def _describe(v):
+    """short stable description of what a hook returned"""
+    try:
+        import msgpack
+        ext = msgpack.ExtType
+    except ImportError:      # pragma: no cover
+        ext = ()
+    if ext and isinstance(v, ext):
+        return "ext:%d:%s" % (v.code, bytes(v.data).hex())
+    if type(v) is str:
+        return "str:" + v
+    if type(v) is dict:
+        return "dict:" + ",".join(sorted(map(str, v)))
+    return type(v).__name__
+
+
+def _path_flags(res_of):
+    """hook placement of one msgpack path from behaviour.  res_of(value) -> ('ok', v) | ('err', name).
+    ext_hook: 2**70 comes back as an int.  Class dicts: {'__class__': 'x.Y'} is refused with SerializeError.
+    Where they are handled: for {1: {'__class__': 'x.Y'}} an object_hook running inside unpackb reports the inner class
+    dict (SerializeError) before the outer non-str key is rejected; recreate_classes after unpackb sees the ValueError first."""
+    big = res_of(2 ** 70)
+    ext = big == ("ok", 2 ** 70)
+    cd = res_of({"__class__": "x.Y"})
+    handled = cd == ("err", "SerializeError")
+    if not handled:
+        return ext, False, False
+    order = res_of({1: {"__class__": "x.Y"}})
+    if order == ("err", "SerializeError"):
+        return ext, True, False
+    if order == ("err", "ValueError"):
+        return ext, False, True
+    raise Shape("msgpack: cannot tell where class dicts are re-created (probe gave %r)" % (order,))
+
+
 def extract():
     common.repo_on_path()
-    from Pyro5 import serializers, config
+    from Pyro5 import serializers, config, errors
+    import msgpack
     path = serializers.__file__
-    tree = ast.parse(open(path).read())
-    base = _cls(tree, "SerializerBase")
-    serp = _cls(tree, "SerpentSerializer")
-    mars = _cls(tree, "MarshalSerializer")
-    jsn = _cls(tree, "JsonSerializer")
-    msgp = _cls(tree, "MsgpackSerializer")
+    S = serializers.serializers
+    serp, mars, jsn, msgp = S["serpent"], S["marshal"], S["json"], S["msgpack"]
 
-    # --- msgpack hooks on the two paths
-    kw_call = _unpack_hooks(_meth(msgp, "loadsCall"))
-    kw_res = _unpack_hooks(_meth(msgp, "loads"))
+    def res(s):
+        return lambda v: _kind(lambda: s.loads(s.dumps(v)))
 
-    def flag(kws, name):
-        return kws.get(name) == "self." + name
+    def arg(s):
+        return lambda v: _kind(lambda: s.loadsCall(s.dumpsCall("o", "m", (v,), {}))[2][0])
 
-    packs = _calls(_meth(msgp, "dumps"), "msgpack.packb") + _calls(_meth(msgp, "dumpsCall"), "msgpack.packb")
-    if len(packs) != 2:
-        raise Shape("MsgpackSerializer.dumps/dumpsCall: expected one msgpack.packb each")
-    pack_kw = [sorted("%s=%s" % (k.arg, _src(k.value)) for k in p.keywords) for p in packs]
+    def kw(s):
+        return lambda v: _kind(lambda: s.loadsCall(s.dumpsCall("o", "m", (), {"k": v}))[3]["k"])
 
-    # --- marshal
-    kw_none_safe = _marshal_kwargs_none_safe(_meth(mars, "dumpsCall"))
-    res_items, call_items = _marshal_list_items(mars)
-    conv = _meth(mars, "convert_obj_into_marshallable")
-    marshalable = None
-    for st in conv.body:
-        if isinstance(st, ast.Assign) and _src(st.targets[0]) == "marshalable_types":
-            marshalable = _tuple_names(st.value)
-    if marshalable is None:
-        raise Shape("marshalable_types not found")
-    mcd = _meth(mars, "class_to_dict")
-    marshal_c2d = _isinstance_chain(mcd)
+    # --- msgpack hooks on the two paths (behaviour)
+    r_ext, r_oh, r_rec = _path_flags(res(msgp))
+    c_ext, c_oh, c_rec = _path_flags(arg(msgp))
+    if _path_flags(kw(msgp)) != (c_ext, c_oh, c_rec):
+        raise Shape("msgpack loadsCall treats vargs and kwargs differently")
 
-    # --- recreate_classes dispatch
-    rec = _meth(base, "recreate_classes")
-    dispatch = []
+    # --- marshal: kwargs=None, one-level list conversion on the two paths
+    kw_none_safe = _kind(lambda: mars.dumpsCall("o", "m", (), None))[0] == "ok"
+    u = uuid.UUID(int=5)
+    res_items = res(mars)([u]) == ("ok", [str(u)])
+    call_items = arg(mars)([u]) == ("ok", [str(u)])
+    if (kw(mars)([u]) == ("ok", [str(u)])) != call_items:
+        raise Shape("marshal dumpsCall converts list items of vargs and kwargs differently")
+
+    # --- marshal: convert_obj_into_marshallable on one sample of each type
+    samples = [("str", "a"), ("int", 7), ("float", 1.5), ("NoneType", None), ("bool", True), ("complex", 1j), ("bytes", b"a"),
+               ("bytearray", bytearray(b"a")), ("tuple", (1,)), ("set", {1}), ("frozenset", frozenset([1])), ("list", [1]),
+               ("dict", {"a": 1}), ("uuid.UUID", u), ("decimal.Decimal", decimal.Decimal("1.50")),
+               ("datetime.date", datetime.date(2020, 1, 2)), ("object", _Obj())]
+    conv_table = []
+    for name, v in samples:
+        k, r = _kind(lambda: mars.convert_obj_into_marshallable(v))
+        conv_table.append((name, "same" if (k == "ok" and r is v) else (_describe(r) if k == "ok" else r)))
+
+    # --- recreate_classes: which containers it descends into (instrumented subclass), the reserved key (by behaviour)
+    seen = []
+
+    class Probe(serializers.SerializerBase):
+        def recreate_classes(self, literal):
+            seen.append(literal)
+            return super(Probe, self).recreate_classes(literal)
+
+    import collections
+    nt = collections.namedtuple("nt", "a")
+    descends, not_descended = [], []
+    marker = 4242
+    for name, v in [("set", {marker}), ("list", [marker]), ("tuple", (marker,)), ("dict", {"k": marker}),
+                    ("frozenset", frozenset([marker])), ("OrderedDict", collections.OrderedDict(k=marker)),
+                    ("namedtuple", nt(marker)), ("bytearray", bytearray(b"a"))]:
+        del seen[:]
+        k, r = _kind(lambda: Probe().recreate_classes(v))
+        if k != "ok" or type(r) is not type(v) or r != v:
+            raise Shape("recreate_classes changes a plain %s" % name)
+        (descends if any(x is marker or x == marker for x in seen[1:]) else not_descended).append(name)
+    # dict keys are not visited
+    del seen[:]
+    Probe().recreate_classes({marker: 1})
+    if any(x == marker for x in seen[1:]):
+        raise Shape("recreate_classes visits dict keys")
+    literals = sorted({n.value for n in ast.walk(ast.parse(open(path).read()))
+                       if isinstance(n, ast.Constant) and isinstance(n.value, str) and 0 < len(n.value) < 40})
+    called = []
+
+    class Probe2(serializers.SerializerBase):
+        @classmethod
+        def dict_to_class(cls, data):
+            called.append(data)
+            return "<made>"
+
     class_keys = []
-    for st in rec.body:
-        if isinstance(st, ast.If) and isinstance(st.test, ast.Compare) and _src(st.test.left) == "t" and isinstance(st.test.ops[0], ast.Is):
-            dispatch.append(_src(st.test.comparators[0]))
-            for sub in ast.walk(st):
-                if isinstance(sub, ast.Compare) and isinstance(sub.ops[0], ast.In) and isinstance(sub.left, ast.Constant):
-                    class_keys.append(sub.left.value)
-    oh = [n for n in msgp.body if isinstance(n, ast.FunctionDef) and n.name == "object_hook"]   # absent in the top-down variant
-    for fn in oh:
-        for sub in ast.walk(fn):
-            if isinstance(sub, ast.Compare) and isinstance(sub.ops[0], ast.In) and isinstance(sub.left, ast.Constant):
-                class_keys.append(sub.left.value)
-    if not class_keys or any(k != class_keys[0] for k in class_keys):
-        raise Shape("reserved class key literals disagree: %r" % class_keys)
-    # class_to_dict: refused container types
-    c2d = _meth(base, "class_to_dict")
-    refused = []
-    for sub in ast.walk(c2d):
-        if isinstance(sub, ast.Compare) and _src(sub.left) == "type(obj)" and isinstance(sub.ops[0], ast.In):
-            refused = _tuple_names(sub.comparators[0])
-    # dict_to_class: the dunder test
-    d2c = _meth(base, "dict_to_class")
-    dunder = [sub.left.value for sub in ast.walk(d2c)
-              if isinstance(sub, ast.Compare) and isinstance(sub.ops[0], ast.In) and isinstance(sub.left, ast.Constant)
-              and _src(sub.comparators[0]) == "classname"]
-    serp_d2c = _meth(serp, "dict_to_class")
-    serp_float = [sub.comparators[0].value for sub in ast.walk(serp_d2c)
-                  if isinstance(sub, ast.Compare) and isinstance(sub.ops[0], ast.Eq) and isinstance(sub.comparators[0], ast.Constant)]
+    for cand in literals:
+        del called[:]
+        if Probe2().recreate_classes({cand: "x.Y"}) == "<made>":
+            class_keys.append(cand)
+    if len(class_keys) != 1:
+        raise Shape("reserved class key: expected exactly one, found %r" % class_keys)
+    key = class_keys[0]
+    # every serializer refuses an unknown class dict under that key on loads and on both call positions
+    recreates = []
+    for name in ("serpent", "marshal", "json", "msgpack"):
+        s = S[name]
+        cd = {key: "x.Y"}
+        recreates.append((name, [f(s)(cd) == ("err", "SerializeError") for f in (res, arg, kw)]))
+
+    # --- class_to_dict refusals, dict_to_class name rules
+    refused = [n for n, v in [("set", {1}), ("dict", {"a": 1}), ("tuple", (1,)), ("list", [1]), ("frozenset", frozenset([1]))]
+               if _kind(lambda: serializers.SerializerBase.class_to_dict(v)) == ("err", "ValueError")]
+    names = ["a__b", "__a", "a__", "a_b", "a._b", "x.Y"]
+    d2c = [(n, _kind(lambda: serializers.SerializerBase.dict_to_class({key: n}))[1]) for n in names]
+    d2c = [(n, r if isinstance(r, str) else _describe(r)) for n, r in d2c]
+    serp_values = []
+    for n in ("float", "int", "complex", "str"):
+        k, r = _kind(lambda: serializers.SerpentSerializer.dict_to_class({key: n, "value": "nan"}))
+        if k == "ok":
+            serp_values.append("%s:%s" % (n, type(r).__name__))
 
     # --- json
-    jd = _meth(jsn, "dumpsCall")
-    json_keys = []
-    for sub in ast.walk(jd):
-        if isinstance(sub, ast.Dict) and sub.keys:
-            json_keys = [k.value for k in sub.keys if isinstance(k, ast.Constant)]
-            break
-    json_chain = _isinstance_chain(_meth(jsn, "default"))
-    msgpack_chain = _isinstance_chain(_meth(msgp, "default"))
-    ext_default = _ext_codes_default(_meth(msgp, "default"))
-    ext_hook = _ext_codes_hook(_meth(msgp, "ext_hook"))
+    call_keys = list(json.loads(jsn.dumpsCall("o", "m", (1,), {"k": 2}).decode("utf-8")).keys())
+    naive = datetime.datetime(2020, 1, 2, 3, 4, 5)
+    aware = naive.replace(tzinfo=datetime.timezone.utc)
+    hook_samples = [("set", {1}), ("frozenset", frozenset([1])), ("uuid.UUID", u), ("datetime", naive),
+                    ("date", datetime.date(2020, 1, 2)), ("Decimal", decimal.Decimal("1.50")), ("array", array.array("i", [1, 2])),
+                    ("bytes", b"a"), ("complex", complex(1.5, 2.0)), ("bigint", 2 ** 70), ("object", _Obj())]
 
-    # --- serpent
-    sd = _calls(_meth(serp, "dumps"), "serpent.dumps") + _calls(_meth(serp, "dumpsCall"), "serpent.dumps")
-    if len(sd) != 2:
-        raise Shape("SerpentSerializer.dumps/dumpsCall: expected one serpent.dumps each")
-    serp_kw = [sorted("%s=%s" % (k.arg, _src(k.value)) for k in p.keywords) for p in sd]
-    # statements of the loads / loadsCall bodies that call recreate_classes (which variables are re-created)
-    recreated = {}
-    for c in (serp, mars, jsn, msgp):
-        fn = _meth(c, "loadsCall")
-        names = []
-        for st in fn.body:
-            if isinstance(st, ast.Assign) and isinstance(st.value, ast.Call) and _src(st.value.func) == "self.recreate_classes":
-                names.append(_src(st.targets[0]))
-        recreated[c.name] = names
+    def table(s, extra=()):
+        out = []
+        for n, v in list(hook_samples) + list(extra):
+            k, r = _kind(lambda: s.default(v))
+            d = _describe(r) if k == "ok" else r
+            if d.startswith("ext:%d:" % 0x32):
+                d = "ext:%d:len%d" % (0x32, len(r.data))      # local-time float timestamp: only code and size are facts
+            out.append((n, d))
+        return out
+    json_table = table(jsn)
+    msgpack_table = table(msgp, [("datetime+tz", aware)])
 
-    # msgpack: does loads() wrap its result in recreate_classes?  does loadsCall re-create vargs and kwargs?
-    loads_rec = len(_calls(_meth(msgp, "loads"), "self.recreate_classes"))
-    if loads_rec not in (0, 1):
-        raise Shape("MsgpackSerializer.loads: more than one recreate_classes call")
-    call_rec = sorted(recreated["MsgpackSerializer"])
-    if call_rec not in ([], ["kwargs", "vargs"]):
-        raise Shape("MsgpackSerializer.loadsCall: recreate_classes applied to %s" % call_rec)
-    for c in (serp, mars, jsn):
-        if sorted(recreated[c.name]) != ["kwargs", "vargs"] or len(_calls(_meth(c, "loads"), "self.recreate_classes")) != 1:
-            raise Shape("%s: loads/loadsCall do not re-create classes in the expected way" % c.name)
+    # --- msgpack ext values: what default() builds and what ext_hook makes of it
+    ext_probe = []
+    for v in (complex(1.5, 2.0), 2 ** 70, datetime.date(2020, 1, 2)):
+        r = msgp.default(v)
+        if not isinstance(r, msgpack.ExtType):
+            raise Shape("MsgpackSerializer.default(%r) is not an ExtType" % (v,))
+        if msgp.ext_hook(r.code, r.data) != v:
+            raise Shape("MsgpackSerializer.ext_hook does not undo default() for %r" % (v,))
+        ext_probe.append((r.code, list(bytes(r.data))))
+    dt_ext = msgp.default(naive)
+    hook_table = [("complex", _kind(lambda: msgp.ext_hook(ext_probe[0][0], bytes(ext_probe[0][1])))),
+                  ("long", _kind(lambda: msgp.ext_hook(ext_probe[1][0], bytes(ext_probe[1][1])))),
+                  ("datetime", _kind(lambda: msgp.ext_hook(dt_ext.code, dt_ext.data))),
+                  ("date", _kind(lambda: msgp.ext_hook(ext_probe[2][0], bytes(ext_probe[2][1])))),
+                  ("unknown-code", _kind(lambda: msgp.ext_hook(0x7f, b"")))]
+    hook_table = [(n, type(r).__name__ if k == "ok" else r) for n, (k, r) in hook_table]
+    datetime_code = dt_ext.code
+    bin_str = [type(msgp.loads(msgp.dumps(b"a"))).__name__, type(msgp.loads(msgp.dumps("a"))).__name__]
+
+    # --- serpent options (behaviour of the produced text)
+    module_in_classname = (b"%s.%s" % (_Obj.__module__.encode(), b"_Obj")) in serp.dumps(_Obj())
+    base64_bytes = b"base64" in serp.dumps(b"a")
+
     ids = [serializers.SerpentSerializer.serializer_id, serializers.MarshalSerializer.serializer_id,
            serializers.JsonSerializer.serializer_id, serializers.MsgpackSerializer.serializer_id]
-    b = lambda x: "true" if x else "false"   # noqa: E731
-    return f"""-- GENERATED by harness/props/c01_extract.py from {os.path.relpath(path, common.REPO)} — do not edit
+    assert errors and config
+    return f"""-- GENERATED by harness/props/c01_extract.py from {os.path.relpath(path, common.REPO)} (behavioural probes) — do not edit
 namespace Pyro.Gen.C01
 /-- serializer_id of serpent, marshal, json, msgpack -/
 def serializerIds : List Nat := {ids}
-/-- MsgpackSerializer.loadsCall passes ext_hook=self.ext_hook / object_hook=self.object_hook to msgpack.unpackb -/
-def msgpackCallExtHook : Bool := {b(flag(kw_call, "ext_hook"))}
-def msgpackCallObjectHook : Bool := {b(flag(kw_call, "object_hook"))}
+/-- MsgpackSerializer.loadsCall: ext values are decoded (2**70 arrives as an int) / class dicts are refused by a hook that runs
+    inside unpackb / by recreate_classes after unpackb (told apart by which error {{1: {{'__class__': 'x.Y'}}}} gives) -/
+def msgpackCallExtHook : Bool := {_b(c_ext)}
+def msgpackCallObjectHook : Bool := {_b(c_oh)}
+def msgpackCallRecreate : Bool := {_b(c_rec)}
 /-- the same for MsgpackSerializer.loads -/
-def msgpackLoadsExtHook : Bool := {b(flag(kw_res, "ext_hook"))}
-def msgpackLoadsObjectHook : Bool := {b(flag(kw_res, "object_hook"))}
-/-- loadsCall passes vargs and kwargs through recreate_classes / loads passes its result through it -/
-def msgpackCallRecreate : Bool := {b(bool(call_rec))}
-def msgpackLoadsRecreate : Bool := {b(loads_rec == 1)}
-/-- other keywords of the two unpackb calls (loadsCall, loads) and of the two packb calls (dumps, dumpsCall) -/
-def msgpackUnpackOther : List (List String) := [{_lean_str_list(sorted("%s=%s" % kv for kv in kw_call.items() if kv[0] not in ("ext_hook", "object_hook")))}, {_lean_str_list(sorted("%s=%s" % kv for kv in kw_res.items() if kv[0] not in ("ext_hook", "object_hook")))}]
-def msgpackPackKw : List (List String) := [{", ".join(_lean_str_list(p) for p in pack_kw)}]
-/-- MarshalSerializer.dumpsCall tolerates kwargs=None (the receiver of .items() is guarded) -/
-def marshalKwargsNoneSafe : Bool := {b(kw_none_safe)}
-/-- dumps / dumpsCall also convert the items of a top-level list (`type(data) is list`) -/
-def marshalDumpsListItems : Bool := {b(res_items)}
-def marshalDumpsCallListItems : Bool := {b(call_items)}
-def marshalableTypes : List String := {_lean_str_list(marshalable)}
-/-- isinstance tests of MarshalSerializer.class_to_dict before delegating to the base class -/
-def marshalClassToDict : List String := {_lean_str_list(marshal_c2d)}
-/-- `t is X` dispatch of SerializerBase.recreate_classes, in order -/
-def recreateDispatch : List String := {_lean_str_list(dispatch)}
-/-- string literals tested with `in` by recreate_classes and MsgpackSerializer.object_hook -/
-def classKeyLiterals : List String := {_lean_str_list(sorted(set(class_keys)))}
+def msgpackLoadsExtHook : Bool := {_b(r_ext)}
+def msgpackLoadsObjectHook : Bool := {_b(r_oh)}
+def msgpackLoadsRecreate : Bool := {_b(r_rec)}
+/-- msgpack: type(loads(dumps(b"a"))), type(loads(dumps("a"))) (use_bin_type / raw) -/
+def msgpackBinStr : List String := {_lean_str_list(bin_str)}
+/-- MarshalSerializer.dumpsCall("o", "m", (), None) does not raise -/
+def marshalKwargsNoneSafe : Bool := {_b(kw_none_safe)}
+/-- [uuid] comes back as [str] through dumps/loads, resp. as an argument through dumpsCall/loadsCall -/
+def marshalDumpsListItems : Bool := {_b(res_items)}
+def marshalDumpsCallListItems : Bool := {_b(call_items)}
+/-- convert_obj_into_marshallable on one sample per type: "same" (returned as is) | what it became | exception -/
+def marshalConvTable : List (String × String) := {_lean_pairs(conv_table)}
+/-- containers recreate_classes descends into / returns without looking inside (instrumented subclass) -/
+def recreateDescends : List String := {_lean_str_list(descends)}
+def recreateNotDescended : List String := {_lean_str_list(not_descended)}
+/-- string literals of the module that, as a dict key, make recreate_classes call dict_to_class -/
+def classKeyLiterals : List String := {_lean_str_list(class_keys)}
 /-- code points of the reserved key -/
-def classKey : List Nat := {_cps(class_keys[0]) if class_keys else "[]"}
-/-- container types SerializerBase.class_to_dict refuses -/
+def classKey : List Nat := {_cps(key)}
+/-- per serializer: an unknown class dict is refused with SerializeError by loads / as positional / as keyword argument -/
+def refusesClassDict : List (String × List Bool) := [{", ".join("(%s, [%s])" % (json.dumps(n), ", ".join(_b(x) for x in bs)) for n, bs in recreates)}]
+/-- sample containers SerializerBase.class_to_dict refuses with ValueError -/
 def classToDictRefused : List String := {_lean_str_list(refused)}
-/-- literals tested with `in classname` by dict_to_class; literals compared with == in SerpentSerializer.dict_to_class -/
-def dictToClassDunder : List String := {_lean_str_list(dunder)}
-def serpentDictToClassEq : List String := {_lean_str_list(serp_float)}
-/-- keys of the request dict built by JsonSerializer.dumpsCall -/
-def jsonCallKeys : List String := {_lean_str_list(json_keys)}
-/-- isinstance chains of the default() hooks, in order -/
-def jsonDefaultChain : List String := {_lean_str_list(json_chain)}
-def msgpackDefaultChain : List String := {_lean_str_list(msgpack_chain)}
-/-- (type, ext code, struct format) of the ExtType values built by MsgpackSerializer.default -/
-def extDefault : List (String × Nat × String) := [{", ".join("(%s, %d, %s)" % (json.dumps(t), c, json.dumps(f)) for t, c, f in ext_default)}]
-/-- (ext code, struct format) decoded by MsgpackSerializer.ext_hook, in order -/
-def extHook : List (Nat × String) := [{", ".join("(%d, %s)" % (c, json.dumps(f)) for c, f in ext_hook)}]
-/-- keywords of the two serpent.dumps calls (dumps, dumpsCall); config.SERPENT_BYTES_REPR default -/
-def serpentDumpsKw : List (List String) := [{", ".join(_lean_str_list(p) for p in serp_kw)}]
-def serpentBytesRepr : Bool := {b(config.SERPENT_BYTES_REPR)}
-/-- variables passed through recreate_classes by loadsCall of serpent, marshal, json -/
-def recreatedInLoadsCall : List (List String) := [{", ".join(_lean_str_list(recreated[n]) for n in ("SerpentSerializer", "MarshalSerializer", "JsonSerializer"))}]
+/-- SerializerBase.dict_to_class on {{key: name}} -/
+def dictToClassNames : List (String × String) := {_lean_pairs(d2c)}
+/-- class names SerpentSerializer.dict_to_class turns into a value (with "value": "nan") -/
+def serpentDictToClassValues : List String := {_lean_str_list(serp_values)}
+/-- keys of the request JsonSerializer.dumpsCall writes, in order -/
+def jsonCallKeys : List String := {_lean_str_list(call_keys)}
+/-- the default() hooks on one sample per type -/
+def jsonDefaultTable : List (String × String) := {_lean_pairs(json_table)}
+def msgpackDefaultTable : List (String × String) := {_lean_pairs(msgpack_table)}
+/-- (ext code, data bytes) MsgpackSerializer.default builds for complex(1.5, 2.0), 2**70, date(2020, 1, 2);
+    ext_hook maps each back to the value (checked at extraction) -/
+def extProbe : List (Nat × List Nat) := [{", ".join("(%d, %s)" % (c, d) for c, d in ext_probe)}]
+def extDatetimeCode : Nat := {datetime_code}
+/-- ext_hook on what default() built, and on an unknown code -/
+def extHookTable : List (String × String) := {_lean_pairs(hook_table)}
+/-- serpent output names classes "module.Class" / writes bytes as a base64 dict -/
+def serpentModuleInClassname : Bool := {_b(module_in_classname)}
+def serpentBase64Bytes : Bool := {_b(base64_bytes)}
 end Pyro.Gen.C01
 """
